@@ -67,6 +67,11 @@ CHECKS["C05"] = ("exploration",
   "180/3000 hand-offs through the real sendPSyncCmd (hook), the dump path (hook) and utils.Iocopy: 0-5 keep-alive newlines before the reply and before '$n', +FULLRESYNC/+CONTINUE in three letter cases, RDB sizes 1 B .. 34 MiB incl. 8191/8192/8193 and 65535/65536/65537, stream 1 B .. 200 KB, fragmentation plans (all at once, 1-byte dribble, odd sizes, 8 KiB+-1, 1-byte writes across the '$n' header and across the RDB/stream boundary, random) x reader pacing (fast, slow, bursty); pipe content = rdb||stream exactly, returned run id / start offset / size = announced, dump file = the n RDB bytes and the reader's leftover = beginning of the stream; every fourth psync case kills the link after half of the stream and requires PSYNC <announced id> <start+received+1> and a seamless continuation.",
   "Trusted: lib/fakesource. TLS and the dead SYNC path of sync mode are out of reach.", "DESIGN.md §5/C05")
 
+CHECKS["C03"] = ("exploration",
+  "reference-pipeline monitor: generated master streams fed with chosen arrival timing through the real incremental path (end to end via DbSyncer.Sync against a scripted master and a loopback model target, and parser+sender pair on an in-process connection recording Send/Flush boundaries); applied command sequence compared with a reference filter pipeline; Go race detector",
+  "640/9600 streams of 1-400 commands from a master grammar (SELECT switches incl. re-selects and the configured target.db, writes in any letter case, PING, MULTI..EXEC, sentinel hellos, EVAL/SCRIPT/EVALSHA, opinfo, keep-alive newlines) under 16/64 configurations (db/key white/black lists, filter.lua, target.db, resume, sender.count x sender.size) and arrival plans (all at once, 1 command/ms, arbitrary byte splits, groups 480..520 ms or 1.2 s apart); the data commands applied at the target (bookkeeping stripped, no foreign MULTI/EXEC) must equal the reference in order, arguments and database, exactly once, within 5 s of the last byte. Evidence counts observed batch partitions (>20k flushes) and the worst flush latency.",
+  "Trusted: lib/reffilter, lib/miniredis, lib/fakesource. 'All timings' is sampled; PINGs are not compared; cluster targets out of reach.", "DESIGN.md §5/C03")
+
 PENDING_REASON = "monitor not built yet in this revision of /verif (planned in DESIGN.md §5); no claim is made"
 
 def main():
